@@ -22,7 +22,7 @@ RULE = ("space A = log_format x value of field 'a' x log_flattened variant x {no
         "format, getattr, call; malformed or non-str format; odd time/system/level/namespace/failure)")
 BOUNDS = {"quick": "A: 40 formats x 31 values x (4 log_flattened x {no, benign} system fields + hostile extra keys), "
                    "5 API variants; B1: 3 formats x 15 x 9 x 9 x 7 x 8 system-field product, B2: unformattable event x "
-                   "<= 2 non-default system fields, 5 API variants; C: full product of the legacy domains",
+                   "<= 2 non-default system fields, B3: the truth-testing labels (__bool__/__len__ raising, falsy 0/''/[]) x <= 2 fields, 5 API variants; C: full product of the legacy domains",
           "thorough": "A also crossed with 3 values of the nested-spec field 'w' and all 8 eventAsText flag "
                       "combinations; B with all flag combinations and B2 with <= 3 non-default system fields"}
 ASSUMPTIONS = [
@@ -95,6 +95,29 @@ class TracebackRaisesBase:
 
 def _raise_call_base():
     raise HostileBase("call")
+
+
+class BoolRaises:
+    """Cannot be truth-tested (like an array with an ambiguous truth value); str/repr/format are fine."""
+
+    def __bool__(self):
+        raise Hostile("bool")
+
+
+class BoolRaisesBase:
+    def __bool__(self):
+        raise HostileBase("bool")
+
+
+class LenRaises:
+    def __len__(self):
+        raise Hostile("len")
+
+
+# labels added for truth-testing; they are crossed pairwise (space B3), not in the full product B1
+TRUTH = {"bool-raises": ("truth-hostile", BoolRaises), "bool-raises-base": ("truth-hostile-base", BoolRaisesBase),
+         "len-raises": ("truth-hostile", LenRaises), "falsy-zero": ("falsy", lambda: 0),
+         "falsy-empty-str": ("falsy", lambda: ""), "falsy-empty-list": ("falsy", lambda: [])}
 
 
 class VeryHostile(Exception):
@@ -369,6 +392,11 @@ EXTRA = {
     "hostile-key": ("hostile", lambda: 0),
 }
 
+for _dom in (VALUES, TIMES, SYSTEMS, LEVELS, NAMESPACES, FAILURES):
+    _dom.update(TRUTH)
+FORMATS.update({"falsy-zero": ("malformed", lambda: 0), "falsy-empty-list": ("malformed", lambda: []),
+                "bool-raises": ("malformed", BoolRaises), "bool-raises-base": ("malformed", BoolRaisesBase)})
+
 DOMAINS = {"log_format": FORMATS, "a": VALUES, "w": VALUES, "log_flattened": FLATTENED, "log_time": TIMES,
            "log_system": SYSTEMS, "log_level": LEVELS, "log_namespace": NAMESPACES, "log_failure": FAILURES,
            "extra": EXTRA}
@@ -539,7 +567,7 @@ L_MESSAGE = {"empty": lambda: (), "text": lambda: ("x", "y"), "hostile": lambda:
 L_FAILURE = {"absent": lambda: ABSENT, "none": lambda: None, "failure": lambda: _raised_failure(ValueError("v")),
              "failure-unrenderable": lambda: _raised_failure(VeryHostile()), "getTraceback-raises": TracebackRaises,
              "getTraceback-raises-base": TracebackRaisesBase}
-L_WHY = {"absent": lambda: ABSENT, "none": lambda: None, "text": lambda: "why", "hostile": AllRaise,
+L_WHY = {"bool-raises": BoolRaises, "falsy-zero": lambda: 0, "absent": lambda: ABSENT, "none": lambda: None, "text": lambda: "why", "hostile": AllRaise,
          "base-raiser": AllRaiseBase,
          "bytes": lambda: b"\xffwhy"}
 L_FORMAT = {"absent": lambda: ABSENT, "none": lambda: None, "%(a)s": lambda: "%(a)s", "%(a)r": lambda: "<%(a)r>",
@@ -631,12 +659,13 @@ SYS_FIELDS = ["log_time", "log_system", "log_level", "log_namespace", "log_failu
 
 def space_b(tier):
     # B1: formats that do not take the (slow) unformattable fallback x the full product of the system fields
+    core = lambda dom: [l for l in dom if l not in TRUTH]
     for fmt in ("plain", "absent", "none"):
-        for t in TIMES:
-            for s in SYSTEMS:
-                for lv in LEVELS:
-                    for ns in NAMESPACES:
-                        for f in FAILURES:
+        for t in core(TIMES):
+            for s in core(SYSTEMS):
+                for lv in core(LEVELS):
+                    for ns in core(NAMESPACES):
+                        for f in core(FAILURES):
                             yield {"log_format": fmt, "a": "str", "log_time": t, "log_system": s, "log_level": lv,
                                    "log_namespace": ns, "log_failure": f}
     # B2: an unformattable event (fallback text reprs the whole event) x every assignment in which at most
@@ -649,6 +678,18 @@ def space_b(tier):
                 spec = {"log_format": "{a}", "a": "all-raise"}
                 spec.update(zip(fields, labels))
                 yield spec
+    # B3: formattable events x every assignment (all labels, including the truth-testing ones: __bool__/__len__
+    # raising, falsy-but-valid values) in which at most 2 (thorough: 3) system fields leave their default
+    for fmt in ("plain", "absent", "none"):
+        for r in range(1, k + 1):
+            for fields in itertools.combinations(SYS_FIELDS, r):
+                doms = [[l for l in DOMAINS[f] if l != DEFAULTS[f]] for f in fields]
+                for labels in itertools.product(*doms):
+                    if not any(l in TRUTH for l in labels):
+                        continue    # already in B1
+                    spec = {"log_format": fmt, "a": "str"}
+                    spec.update(zip(fields, labels))
+                    yield spec
 
 
 def space_c():
